@@ -173,6 +173,22 @@ theorem start_once (k : Kind) (ops : List Op) (hw : WF 990 ops) :
   intro d hd
   exact (hall d hd).2.2.2.2.1
 
+/-- F-C05d: a flexible downtime, two non-OK results whose execution end (1010, 1011) lies after the
+    processing time (1005, 1006). -/
+def ceFutureResult : List Op :=
+  [.result 0 1000 1000, .add ⟨1, false, 1000, 1030, 5, 0, false⟩ 1001, .result 2 1010 1005, .result 2 1011 1006]
+
+/-- **start_once_future_counterexample.**  The hypothesis of `start_once` that a check result's execution end
+    is not later than its processing time (`WF`: `te ≤ now`) cannot be dropped: with the checker's clock
+    ahead the trigger time lies in the future, the downtime is not yet `IsTriggered`, and the next non-OK
+    result requests DowntimeStart again (known finding F-C05d; the trigger time itself is kept). -/
+theorem start_once_future_counterexample :
+    ¬ WF 990 ceFutureResult ∧
+    (∃ d ∈ (run (initSt .service) ceFutureResult).dts, d.starts = 2 ∧ d.trigger = 1010) := by
+  constructor
+  · decide
+  · decide
+
 /-! ### DowntimeStart for every downtime that took effect — partial, with the counterexample (F-C05c) -/
 
 /-- **started_partial.**  Every downtime triggered by its own start (`Downtime::Start` of a fixed downtime
